@@ -208,6 +208,33 @@ var families = []family{
 	// name-bearing options the pinned library has no type for (AFTR-Name 64, SIP domain list 21, access domain 57, NIS
 	// domain 29): a decoder added for one of them is held to the same bound as the rest -- one terminated chain of
 	// thousands of one-octet labels, and thousands of short terminated names
+	// thousands of minimal Option Request options naming a high code each (the cost of an option is a matter of its
+	// length, not of the numbers in it); a pointer fan spelled with capitals, inside forty relay levels (what is re-encoded
+	// is what was received, every level copies it once)
+	{"oro-options-high-codes", "v6", false, func(n int) []byte {
+		var v []byte
+		for i := 0; len(v)+6 <= n-4; i++ {
+			c := []int{256, 65535, 0x0100, 0x8000, 300 + i%4000}[i%5]
+			v = append(v, tlv(6, []byte{byte(c >> 8), byte(c)})...)
+		}
+		return msg6(v)
+	}},
+	{"ptrfan-capitals-in-relays", "v6", true, func(n int) []byte {
+		levels := min(40, n/100)
+		f := ptrFan(max(16, n-8-levels*38))
+		for i := range f {
+			if f[i] >= 'a' && f[i] <= 'z' && i%3 == 0 {
+				f[i] -= 32
+			}
+		}
+		m := msg6(tlv(24, f))
+		for k := 0; k < levels && len(m)+38 <= n; k++ {
+			h := make([]byte, 34)
+			h[0], h[1] = 12, byte(k)
+			m = append(h, tlv(9, m)...)
+		}
+		return m
+	}},
 	{"label-chain-aftr-name", "v6", false, func(n int) []byte { return msg6(tlv(64, labelChain(n-8))) }},
 	{"label-chain-sip-domains", "v6", false, func(n int) []byte { return msg6(tlv(21, labelChain(n-8))) }},
 	{"short-names-untyped-codes", "v6", false, func(n int) []byte {
